@@ -91,6 +91,23 @@ func drawKeyset(rt *rapid.T) *ksCase {
 			evid.Add("member_dropped/not-serializable", 1)
 			continue
 		}
+		// key material must be unique inside one keyset: two prefix-less keys sharing e.g. an HMAC
+		// key (or keys that differ only in trailing zero bytes, which HMAC treats as equal) would
+		// legitimately answer for each other in the interoperability checks
+		dupMaterial := false
+		for _, o := range kept {
+			for _, a := range o.info.Secrets {
+				for _, b := range info.Secrets {
+					if sameMaterial(a, b) {
+						dupMaterial = true
+					}
+				}
+			}
+		}
+		if dupMaterial {
+			evid.Add("member_dropped/duplicate-material", 1)
+			continue
+		}
 		if info.HasID || m.fixed {
 			if used[m.id] {
 				evid.Add("member_dropped/id-collision", 1)
@@ -644,4 +661,16 @@ func TestKeysetRoundTrip(t *testing.T) {
 		}
 		evid.Case(cls, true, h.Sum(), func() any { return map[string]any{"keyset": c.String(), "route": r.String()} })
 	})
+}
+
+// sameMaterial reports whether two secrets may be the same key: equal after trimming trailing
+// zero bytes (HMAC zero-pads short keys; an all-zero 16-byte and 32-byte value also coincide).
+func sameMaterial(a, b []byte) bool {
+	trim := func(x []byte) []byte {
+		for len(x) > 0 && x[len(x)-1] == 0 {
+			x = x[:len(x)-1]
+		}
+		return x
+	}
+	return bytes.Equal(trim(a), trim(b))
 }
